@@ -116,7 +116,10 @@ class Check:
             if rc != 0: info['error'] = 'llvm-link failed: ' + err[-2000:]; s.log(info['error']); return info
         else: os.rename(lls[0], ll)
         args = [sys.executable, os.path.join(TOOLS, 'll2c.py'), ll, '-o', os.path.join(d, 'gen.c'), '--report', os.path.join(d, 'rep.json')]
-        for e in u.externs: args += ['--extern', e]
+        exts = list(u.externs)
+        if 'vf_file.c' in u.tool_c:      # everything tools/vf_file.c models
+            exts += ['fopen', 'fclose', 'fread', 'fgets', 'getc', 'ungetc', 'rewind', 'strtol', 'strtod', 'strtod_l', 'newlocale', 'freelocale', '__errno_location', 'strcpy']
+        for e in sorted(set(exts)): args += ['--extern', e]
         args += u.ll2c_args
         rc, out, err, dt = run(args, timeout=600)
         if rc != 0: info['error'] = 'll2c failed: ' + err[-3000:]; s.log(info['error']); return info
@@ -158,7 +161,7 @@ class Check:
             objs = []
             for i, src in enumerate([os.path.join(s.hdir, u.wrap)] + [os.path.join(REPO, x) for x in u.extra_repo_cc]):
                 o = os.path.join(d, 'real%d.o' % i)
-                cmd = ['g++', '-std=c++17', '-O1', '-g', '-w', '-fno-strict-aliasing'] + san + s.defs + include_flags() + ['-I' + s.hdir, '-I' + TOOLS] + u.cxxflags + list(getattr(u, 'real_cxxflags', [])) + ['-DVF_REAL_BUILD', '-c', src, '-o', o]
+                cmd = ['g++', '-std=c++17', '-O0', '-g', '-w', '-fno-strict-aliasing'] + san + s.defs + include_flags() + ['-I' + s.hdir, '-I' + TOOLS] + u.cxxflags + list(getattr(u, 'real_cxxflags', [])) + ['-DVF_REAL_BUILD', '-c', src, '-o', o]
                 rc, out, err, dt = run(cmd, timeout=900)
                 if rc != 0: s.log('real build failed:', err[-1500:]); return None
                 objs.append(o)
